@@ -206,8 +206,8 @@ Print Assumptions c15_explain_fixed_never_crashed.
 (* check (clause numbers violated by an observed scenario) is empty exactly when the
    observation satisfies the property as stated on events: no crash; per session
    order / no invention, completeness + normal close when the service ended and the
-   client stayed, stop for every request when the client left first; no goroutine
-   left once everything is over *)
+   client stayed, stop for every request when the client left first, the first request of every session reaches the service; no
+   goroutine left once everything is over *)
 Theorem c15_check_spec : forall c, check c = [] <-> spec c.
 Proof. exact check_spec. Qed.
 Print Assumptions c15_check_spec.
